@@ -144,14 +144,18 @@ def sourceUnitParts : T → List T
   | .node .S_SourceUnit [v] => vecItems v
   | _ => []
 
+/-- the value of a `pragma solidity` directive -/
+def solidityPragmaOf : T → Option String
+  | .node .SourceUnitPart_PragmaDirective [_, id, .node .S_StringLiteral [_, _, .str v]] =>
+    if identName id = some "solidity" then some v else none
+  | _ => none
+
+/-- values of the `pragma solidity` directives, in source order -/
+def solidityPragmas (su : T) : List String := (extract [.PragmaDirective] su).filterMap solidityPragmaOf
+
 /-- `get_solidity_version_from_source_unit`: the first `pragma solidity` directive decides -/
 def versionOf (su : T) : Option (Nat × Nat × Nat) :=
-  let pragmas := (extract [.PragmaDirective] su).filterMap fun n =>
-    match n with
-    | .node .SourceUnitPart_PragmaDirective [_, id, .node .S_StringLiteral [_, _, .str v]] =>
-      if identName id = some "solidity" then some v else none
-    | _ => none
-  match pragmas with
+  match solidityPragmas su with
   | v :: _ => versionOfValue v.toList
   | [] => none
 
